@@ -23,6 +23,7 @@ ASSUMPTIONS = [
     "a ciphertext is laid out as 24-byte nonce, 16-byte Poly1305 tag, body (checked by the driver: length = 40 + plaintext length)",
     "only the result class (data returned / error) and the returned bytes are compared, not the error value",
     "at manager level the public and the private master key are both created from the behaviour's passphrase; an empty passphrase is exercised on snacl only (waddrmgr.Create refuses it)",
+    "concurrency is explored for one worker and one controller (Lock/Unlock); the verdict comes from the real outcome (a returned ciphertext that does not open, a Decrypt that fails), never from timing",
     "scrypt parameters are small (N = 16..1024) so that ten thousands of derivations fit the budget",
 ]
 
@@ -71,6 +72,29 @@ def run(prop, tier, seed, scratch, replay=None):
     res.add_report(rep)
     if rep["traces"] != ntraces:
         res.errors.append("driver replayed %d of %d behaviours" % (rep["traces"], ntraces))
+    # manager level, concurrent: spec/SealMgr.tla (Encrypt/Decrypt as a critical section against Lock)
+    ctr = scratch.path("conc.ndjson")
+    crep = scratch.path("conc-report.json")
+    conc = vlib.run_tlc(scratch, "SealMgr.tla", "MC_SealMgr.cfg", out_traces=ctr, tag="conc", timeout=300)
+    vlib.require_tlc_ok(conc, "SealMgr exploration")
+    broken = vlib.run_tlc(scratch, "SealMgr.tla", "MC_SealMgr_broken.cfg", tag="concbroken", timeout=300)
+    if broken["ok"] or not any("SealedUnderRealKey" in e for e in broken["errors"]):
+        raise vlib.Broken("MC_SealMgr_broken.cfg must violate SealedUnderRealKey (the model would be vacuous): %s" % broken["errors"][:2])
+    vlib.run_driver(drv, ["-in", ctr, "-out", crep, "-workers", 1, "-procs", vlib.NCPU, "-seed", seed], timeout=1200)
+    cr = vlib.load_report(crep)
+    res.add_report(cr)
+    if cr["traces"] != conc["ntraces"]:
+        res.errors.append("driver replayed %d of %d manager-concurrency behaviours" % (cr["traces"], conc["ntraces"]))
+    states += conc["distinct"]
+    transitions += conc["generated"]
+    per_cfg["MC_SealMgr.cfg"] = {"states": conc["distinct"], "transitions": conc["generated"], "cases": conc["ntraces"], "depth": conc["depth"],
+                                 "behaviours_with_lock_called_inside_the_section": cr["distinct_nontrivial"],
+                                 "lock_completed_while_worker_in_section": (cr.get("extra") or {}).get("lock_completed_while_worker_in_section", 0)}
+    cmds.append(conc["cmd"])
+    rep["traces"] += cr["traces"]
+    rep["checks"] += cr["checks"]
+    rep["steps"] += cr["steps"]
+    rep["distinct_nontrivial"] += cr["distinct_nontrivial"]
     res.coverage = {
         "states": states, "transitions": transitions,
         "traces_validated_against_impl": rep["traces"],
@@ -83,7 +107,10 @@ def run(prop, tier, seed, scratch, replay=None):
                        "candidate / Marshal / Unmarshal of each length / alteration of each stored salt or digest bit / Restart) carrying the result "
                        "class the specification's operators prescribe; each case was executed on real snacl keys, on Manager.Encrypt/Decrypt of an "
                        "unlocked manager (CKTPublic/CKTPrivate/CKTScript) and, for public-key cases, of a locked manager; passphrase cases also on "
-                       "waddrmgr.Create/Open/Unlock/Lock with a database reopen as restart."
+                       "waddrmgr.Create/Open/Unlock/Lock with a database reopen as restart. spec/SealMgr.tla (MC_SealMgr.cfg) models "
+                       "Manager.Encrypt/Decrypt as select-key / use-key inside the manager mutex against a concurrent Lock (which wipes the keys in "
+                       "place) and Unlock; every transition's behaviour was replayed with real goroutines, the worker parked at the hook "
+                       "crypt.keyselected while Lock is called, and every ciphertext Encrypt returned was opened again after the next Unlock."
                        % ", ".join(c for c, _, _ in RUNS[tier]),
         "per_config": per_cfg, "replayed_steps": rep["steps"], "driver_counters": rep.get("extra", {}),
         "tlc_wall_s": round(wall, 1), "checker_cmd": " ; ".join(cmds),
